@@ -91,8 +91,8 @@ func newServeGenHost(r *Run, rng *rand.Rand) *serveGen {
 	rng.Shuffle(len(pool), func(i, j int) { pool[i], pool[j] = pool[j], pool[i] })
 	g.EnumN = pick(r, 6, 9)
 	g.Pool = pool
-	g.EntryMethods = []string{"GET", "POST", "OPTIONS"}
-	g.ReqMethods = []string{"GET", "POST", "OPTIONS", "FOO"}
+	g.EntryMethods = []string{"GET", "HEAD", "OPTIONS"} // HEAD is a method like any other (redirected with 308, listed in Allow)
+	g.ReqMethods = []string{"GET", "HEAD", "OPTIONS", "POST"}
 	g.Paths = []string{"/", "/a", "/a/", "/b", "/b/", "/a/b", "*"}
 	n := pick(r, 200, 2000)
 	for i := 0; i < n; i++ {
@@ -341,6 +341,12 @@ func replyAgrees(presc, got serveReply, query string) bool {
 // owner attributes a disagreement to the property that states the violated rule.
 func replyOwner(presc, got serveReply) string {
 	isTS := func(r serveReply) bool { return r.Kind == "redirect" }
+	if presc.Kind == got.Kind && got.Kind != "route" && got.CtxErr != "" {
+		if isTS(got) {
+			return "both" // C08 (the redirect itself) and C11 (what the redirect handler's context exposes)
+		}
+		return "C11" // the right special handler ran, but its context exposes a route, a pattern or parameters
+	}
 	if isTS(presc) || isTS(got) {
 		return "C08"
 	}
@@ -452,7 +458,7 @@ func (s *serveReplayer) replayTable(v serveVec, rng *rand.Rand) {
 					s.kinds[4].Add(1)
 				}
 				if !replyAgrees(want, got, query) {
-					if own := replyOwner(want, got); s.owner == "" || own == s.owner {
+					if own := replyOwner(want, got); s.owner == "" || own == s.owner || own == "both" {
 						sorted := append([]string(nil), tableDesc...)
 						sort.Strings(sorted)
 						key := fmt.Sprintf("serve table=%s noMethod=%v autoOptions=%v req=%s %q", strings.Join(sorted, " | "), noMethod, autoOptions, m, path)
